@@ -236,6 +236,7 @@ def features(world, name):
         ([image_of(c)] if image_of(c) else [])
     return {
         'name': name,
+        'upstream_and_self': sorted(up),
         'trailing_digit_names': sorted(n for n in up if n[-1:].isdigit()),
         'abs_refs_in_args': sorted(c['refs'][i]['path'] for i in in_args
                                    if c['refs'][i]['prod'] is None and c['refs'][i]['path'].startswith('EXT/')),
